@@ -54,6 +54,16 @@ func C16(c *Ctx) error {
 		}
 		shapes = append(shapes, gen.Degenerate{Shape: fmt.Sprintf("random#%d", i), Req: req})
 	}
+	// definitions the plugins REFUSE (every annotation rule of C12, each variant): the refusal itself must be an
+	// answer — an error message — and not a crash on the error path
+	ri := 0
+	for _, rule := range append(append([]string{}, gen.HTTPRules...), gen.JSONRules...) {
+		for v := 0; v < c.N(3, 6); v++ {
+			ri++
+			req, b := gen.Place(r.Fork(fmt.Sprint("c16-refused-", ri)), ri, rule, "top")
+			shapes = append(shapes, gen.Degenerate{Shape: fmt.Sprintf("refused:%s:%s#%d", rule, b.Variant, v), Req: req})
+		}
+	}
 	params := map[string][]string{
 		plug.GoHTTP:   {"", "generate_mock=true", "paths=source_relative", "generate_mock=true,paths=source_relative", "bogus=1"},
 		plug.GoClient: {"", "paths=source_relative"},
@@ -72,7 +82,7 @@ func C16(c *Ctx) error {
 	for _, s := range shapes {
 		for _, p := range plug.All {
 			ps := params[p]
-			if strings.HasPrefix(s.Shape, "random#") && !c.Thorough() {
+			if (strings.HasPrefix(s.Shape, "random#") || strings.HasPrefix(s.Shape, "refused:")) && !c.Thorough() {
 				ps = ps[:min(2, len(ps))]
 			}
 			for _, pa := range ps {
@@ -135,6 +145,9 @@ func C16(c *Ctx) error {
 		shapeKey := j.shape.Shape
 		if strings.HasPrefix(shapeKey, "random#") {
 			shapeKey = "random"
+		}
+		if strings.HasPrefix(shapeKey, "refused:") {
+			shapeKey = shapeKey[:strings.LastIndex(shapeKey, "#")]
 		}
 		res.Case(map[string]any{"shape": j.shape.Shape, "plugin": j.plugin, "param": j.param}, true)
 		res.Count("class:" + cls)
